@@ -1,1 +1,2 @@
 //! Shared reference models / validators.
+pub mod tokcanon;
